@@ -30,7 +30,10 @@ Scenarios == {
   <<V(Lit(2), X), <<R(FALSE, Y, "G"), R(FALSE, Y, "L"), R(FALSE, X, "G")>>>>,
   <<V(Lit(1), Lit(1)), <<R(FALSE, X, "L"), R(FALSE, Y, "L"), R(FALSE, Lit(1), "G")>>>>,
   <<V(Lit(0), X), <<R(FALSE, X, "L"), R(FALSE, Y, "G")>>>>,              \* unfixable through a property
-  <<V(Lit(4), Undef), <<R(FALSE, X, "L"), R(FALSE, Lit(4), "G")>>>>      \* not a colour
+  <<V(Lit(4), Undef), <<R(FALSE, X, "L"), R(FALSE, Lit(4), "G")>>>>,     \* not a colour
+  \* the property is defined and in effect, its fallback would be readable: the rule is judged on the property
+  <<V(Lit(1), Undef), <<R(FALSE, <<"varfb", "x", Lit(3)>>, "L")>>>>,
+  <<V(Lit(0), Lit(2)), <<R(FALSE, <<"varfb", "x", Lit(3)>>, "G"), R(FALSE, <<"varfb", "y", Lit(3)>>, "G")>>>>
 }
 ScenInit == /\ tab = McTab /\ phase = "build" /\ sheet0 = <<>>
             /\ \E s \in Scenarios : vdef = s[1] /\ rules = s[2]
